@@ -34,7 +34,8 @@ class MyDict(dict):
     pass
 
 
-ATOMS = [None, False, True, 0, 1, 2, 1.0, -0.0, 2.5, '', '0', '1', 'a', 'true', 2 ** 63,
+ATOMS = [None, False, True, 0, 1, 2, 1.0, -0.0, 2.5, '', '0', '1', 'a', 'true', 2 ** 63, 2 ** 53,
+         2 ** 53 + 1,
          float('inf'), -float('inf')]
 SUBS = [Color.RED, MyStr('a'), MyInt(1), MyFloat(1.0), MyList([1]), MyDict({'a': 1})]
 KEYS = ['a', '0', '1', 1, 1.0, True, None, 2.5, Color.RED, MyInt(1), MyFloat(2.5), MyStr('a'),
